@@ -294,10 +294,34 @@ def _shape_of(nested):
 
 
 class EngineEnv:
-    def __init__(self, st):
+    def __init__(self, st, symlen=False):
         self.st = st
         self.k = 0
         self.outs = {}
+        self.symlen = symlen      # array arguments get a SYMBOLIC leading length LEN<k> (fact LEN<k> == actual length): drives the
+        self.bind = {}            # symbolic code paths of the contracts (the ones proofs use) on concrete data
+        self.nsym = 0
+
+    def sym_array(self, data, shape, kind):
+        self.nsym += 1
+        name = f"LEN{self.nsym}"
+        n = sv.integer(name)
+        self.st.facts.append(n.t == shape[0])
+        self.bind[(name, ())] = shape[0]
+
+        def pick(x, idx):
+            if not idx:
+                return x
+            i = idx[0]
+            if is_conc(i):
+                if not (0 <= int(i) < len(x)):
+                    raise EngineError("concrete index outside a symbolic-length argument")
+                return pick(x[int(i)], idx[1:])
+            if not x:
+                raise EngineError("index into an empty array")
+            subs = [pick(y, idx[1:]) for y in x]
+            return A._pick(subs, i)
+        return A.new_arr((n,) + tuple(shape[1:]), lambda idx: pick(data, tuple(idx)), kind)
 
     def arg(self, d):
         if isinstance(d, bool) or d is None or isinstance(d, (int, str)):
@@ -314,7 +338,9 @@ class EngineEnv:
 
                 def conv(x):
                     return [conv(y) for y in x] if isinstance(x, list) else _num(x, kind)
-                if any(s == 0 for s in shape):
+                if self.symlen and len(shape) >= 1 and shape[0] >= 1 and all(x > 0 for x in shape):
+                    a = self.sym_array(conv(data), shape, kind)
+                elif any(s == 0 for s in shape):
                     def empty(idx):
                         raise EngineError("index into an empty array")
                     a = A.new_arr(shape, empty, kind)
@@ -525,9 +551,20 @@ class Plainer:
 
     def text_lines(self, items):
         """written text -> list of lines, each a list of tokens {"w": literal} | {"i": int} | {"f": float}"""
-        from pyvc.text import Rows, Run, Text, Tok
+        from pyvc.text import Block, Rows, Run, Text, Tok
         flat = []
-        for it in items:
+
+        def expand(seq):
+            for it in seq:
+                if isinstance(it, Block):
+                    lo, hi = self.dim(it.lo), self.dim(it.hi)
+                    if not (isinstance(lo, int) and isinstance(hi, int)):
+                        raise EngineError("written block with unevaluable bounds")
+                    for i in range(lo, hi):
+                        yield from expand(it.at(i))
+                else:
+                    yield it
+        for it in expand(items):
             for p in (it.pieces if isinstance(it, Text) else [it]):
                 if isinstance(p, Rows):
                     n, w = self.dim(p.n), self.dim(p.width)
@@ -591,7 +628,7 @@ class EngineOutcome:
         self.side_failed = []
 
 
-def run_engine(module, fname, case, prop, extern=None):
+def run_engine(module, fname, case, prop, extern=None, symlen=False):
     lib = vc.lib_for(prop)
     lib.activate()
     if extern:
@@ -603,7 +640,7 @@ def run_engine(module, fname, case, prop, extern=None):
     out.state = st
     I.MODULE_VARIANTS.clear()
     with use_state(st):
-        env = EngineEnv(st)
+        env = EngineEnv(st, symlen)
         out.env = env
         try:
             args = [env.arg(a) for a in case]
@@ -642,7 +679,7 @@ def run_engine(module, fname, case, prop, extern=None):
                 out.side_failed.append(so.kind)
             elif not z3.is_true(so.cond):
                 try:
-                    ok = ZEval()(so.cond)
+                    ok = ZEval(dict(env.bind))(so.cond)
                 except Unbound:
                     ok = None
                 if ok is None:
@@ -961,19 +998,21 @@ def compare_case(sn, eo, real, case=None):
         # a failed side obligation makes every proof about this call fail: sound, the contract is just narrower than the library
         return "not-modelled", [f"engine requires {eo.side_failed[0]} (stricter than the library: the real call returns normally)"]
     with use_state(eo.state):
-        pl = Plainer(eo.state)
+        pl = Plainer(eo.state, dict(eo.env.bind))
         try:
             ev = pl.value(eo.value)
             efiles = engine_files(eo, pl)
         except EngineError as e:
             return "not-modelled", [f"EngineError while reading the result: {e}"]
-        cmpr = Comparer(tol=sn.get("tol", FTOL), relational=sn.get("kind") == "rel", loose_dtype=sn.get("loose_dtype", False))
+        relational = sn.get("kind") == "rel" or eo.env.symlen
+        cmpr = Comparer(tol=sn.get("tol", FTOL), relational=relational, loose_dtype=sn.get("loose_dtype", False))
+        cmpr.real = real
         if sn.get("custom"):
             cmpr.diffs.extend(sn["custom"](eo, real, pl, case) or [])
         else:
             cmpr.value("", ev, real.get("ret"))
         compare_files(cmpr, efiles, real.get("files") or {}, eo)
-        if sn.get("kind") == "rel" and not cmpr.diffs:
+        if relational and not cmpr.diffs:
             rel_check(sn, eo, cmpr, pl)
     if cmpr.diffs:
         return "DISAGREE", cmpr.diffs[:6]
@@ -1063,41 +1102,70 @@ def _bind_key(ze, t):
     return (d.name(), args)
 
 
+def _fact_arity(fact):
+    """(number of leading index arguments, takes parameter arguments)"""
+    import inspect
+    try:
+        ps = list(inspect.signature(fact).parameters.values())
+    except (TypeError, ValueError):
+        return 1, False
+    k = len([p for p in ps if p.kind in (p.POSITIONAL_ONLY, p.POSITIONAL_OR_KEYWORD) and p.default is p.empty])
+    return k, any(p.kind == p.VAR_POSITIONAL for p in ps)
+
+
+def _val_term(val, sort):
+    if isinstance(val, bool):
+        return z3.BoolVal(val)
+    if sort == z3.IntSort():
+        return z3.IntVal(int(val))
+    if isinstance(val, float):
+        return z3.RealVal(str(sv.to_frac(val)))
+    return z3.RealVal(str(Fraction(val)))
+
+
 def rel_check(sn, eo, cmpr, pl):
-    """called with the bindings collected by the structural comparison"""
+    """bind the result symbols of a relational contract to the real output, then check every assumed fact: ground facts are
+    evaluated (floats with tolerance); facts that mention auxiliary symbols (inverse permutations, witnesses, selections under a
+    symbolic index ...) are checked for SATISFIABILITY together with the equations `engine term == real value` — i.e. the real
+    output must be a model of what the contract assumes about the result."""
     st = eo.state
-    bind = {}
+    bind = dict(eo.env.bind)
+    if sn.get("binder"):
+        bind.update(sn["binder"](eo, cmpr.real, pl) or {})
     ze = ZEval(bind)
     notes = []
-    pending = list(cmpr.bindings)
-    progress = True
-    while pending and progress:
-        progress = False
-        rest = []
+    equations = []       # (term, real value): terms that are not plain applications of a result symbol
+
+    def absorb(bindings, where=""):
+        pending = list(bindings)
+        progress = True
+        while pending and progress:
+            progress = False
+            rest = []
+            for term, val, sort in pending:
+                key = _bind_key(ze, term)
+                if key is None or key[0] in INTENDED or sigma.BY_DECL.get(key[0]) is not None:
+                    rest.append((term, val, sort))
+                    continue
+                if isinstance(val, list):
+                    val = complex(*val)
+                if sort == "int" and not isinstance(val, bool):
+                    val = int(val)
+                if key in bind and not _approx_eq(bind[key], val):
+                    cmpr.d("binding", f"{key} bound to two values {bind[key]} / {val}")
+                bind[key] = val
+                ze.cache.clear()
+                progress = True
+            pending = rest
         for term, val, sort in pending:
-            key = _bind_key(ze, term)
-            if key is None:
-                rest.append((term, val, sort))
-                continue
-            if isinstance(val, list):     # complex
-                val = complex(*val)
-            if sort == "int" or (sort == "float" and isinstance(val, int)):
-                val = int(val) if float(val).is_integer() else val
-            if key in bind and not _approx_eq(bind[key], val):
-                cmpr.d("binding", f"{key} bound to two values {bind[key]} / {val}")
-            bind[key] = val
-            ze.cache.clear()
-            progress = True
-        pending = rest
-    for term, val, sort in pending:
-        # not a plain application of a result symbol: a derived term — evaluate and compare
-        try:
-            x = ze(term)
-            if not _approx_eq(x, val if not isinstance(val, list) else val[0], max(cmpr.tol, 1e-9)):
-                cmpr.d("derived", f"engine term {str(term)[:80]} evaluates to {x!r}, real {val!r}")
-        except Unbound as u:
-            cmpr.d("derived", f"engine term {str(term)[:80]} has an unbound symbol {u}")
-    # deferred arrays / sequences with symbolic shape: now readable
+            try:
+                x = ze(term)
+                v = val if not isinstance(val, list) else val[0]
+                if not _approx_eq(x, v, max(cmpr.tol, 1e-9)):
+                    cmpr.d(where or "derived", f"engine term {str(term)[:90]} evaluates to {x!r}, real {val!r}")
+            except Unbound:
+                equations.append((term, val))
+    absorb(cmpr.bindings)
     pl2 = Plainer(st, bind)
     for path, obj, r in cmpr.deferred:
         try:
@@ -1105,71 +1173,71 @@ def rel_check(sn, eo, cmpr, pl):
         except (EngineError, Unbound, TypeError) as e:
             cmpr.d(path, f"cannot read the engine result after binding: {e}")
             continue
-        sub = Comparer(tol=max(cmpr.tol, 1e-9), relational=True)
+        sub = Comparer(tol=max(cmpr.tol, 1e-9), relational=True, loose_dtype=cmpr.loose_dtype)
         if isinstance(obj, A.Arr):
             e2.pop("writeable", None)
             sub.nd(path, e2, r)
         else:
             sub.value(path, e2, r)
-        for term, val, sort in sub.bindings:
-            key = _bind_key(ze, term)
-            if key is None:
-                try:
-                    x = ze(term)
-                    if not _approx_eq(x, val if not isinstance(val, list) else complex(*val), 1e-9):
-                        cmpr.d(path, f"engine term {str(term)[:100]} evaluates to {x!r}, real {val!r}")
-                except Unbound as u:
-                    cmpr.d(path, f"unbound symbol {u} in {str(term)[:100]}")
-                continue
-            if isinstance(val, list):
-                val = complex(*val)
-            if sort == "int":
-                val = int(val)
-            bind[key] = val
-            ze.cache.clear()
         cmpr.diffs.extend(sub.diffs)
+        absorb(sub.bindings, path)
+        pl2 = Plainer(st, bind)
+        for path2, obj2, r2 in sub.deferred:
+            cmpr.d(path2, "nested symbolic shape")
     if cmpr.diffs:
         return
     # ---- the assumed facts
-    facts = []          # (label, z3 formula)
-    for f in list(st.facts) + list(st.pc):
-        facts.append(("assumed (path)", f))
-    sizes = sn.get("fact_range")
-    rng = range(-1, (sizes if sizes is not None else 8) + 1)
-    for fname, fact in st.array_facts:
-        import inspect
-        try:
-            nargs = len([p for p in inspect.signature(fact).parameters.values() if p.kind == p.POSITIONAL_OR_KEYWORD and p.default is p.empty])
-            var = any(p.kind == p.VAR_POSITIONAL for p in inspect.signature(fact).parameters.values())
-        except (TypeError, ValueError):
-            nargs, var = 1, False
-        # arity = that of the symbol (parameters of the lifted function are absent for concrete data)
-        arity = next((k[1].__len__() for k in bind if k[0] == fname), None)
-        if arity is None:
-            arity = max(nargs, 1)
-        for tup in itertools.product(rng, repeat=arity):
-            try:
-                facts.append((f"array fact {fname}{tup}", fact(*[z3.IntVal(x) for x in tup])))
-            except Exception as e:      # a fact that cannot be instantiated at these arguments
-                notes.append(f"array fact {fname}{tup} not instantiable: {type(e).__name__}")
-                break
+    facts = [("assumed (path)", f) for f in list(st.facts) + list(st.pc)]
     for q in st.qfacts:
-        facts.extend(qfact_formulas(q, bind, ze))
-    for name, fn in axioms.QFACTS.items():
-        for key in [k for k in bind if k[0] == name]:
-            d = next((t.decl() for t, _, _ in cmpr.bindings if t.decl().name() == name), None)
-            if d is None:
-                continue
-            app = d(*[z3.IntVal(int(a)) for a in key[1]])
-            for f in fn(app):
-                facts.append((f"QFACTS {name}{key[1]}", f))
+        try:
+            facts.extend(qfact_formulas(q, bind, ze))
+        except Unbound as u:
+            notes.append(f"qfact {q[0]} not instantiated ({u})")
     extra = sn.get("extra_facts")
     if extra:
         facts.extend(extra(eo, bind, ze))
-    need_solver = []
-    nchecked = 0
+    seeds = [f for _, f in facts] + [t for t, _ in equations] + [t for t, _, _ in cmpr.bindings if t is not None]
+    maxn = max([8] + [int(v) for (nm, a), v in bind.items() if nm.startswith("LEN")])
+    maxn = min(sn.get("fact_range", maxn), 12)
+    idx_range = range(-1, maxn + 1)
+    for rnd in range(2):
+        apps = axioms.collect_apps(seeds)
+        new = []
+        for fname, fact in st.array_facts:
+            k, has_params = _fact_arity(fact)
+            group = getattr(fact, "_group", None) or (fname,)
+            ptuples = {}
+            for g in group:
+                for e in apps.get(g, {}).values():
+                    ch = e.children()
+                    kk = k if g == fname else min(k, len(ch))
+                    ps = tuple(ch[kk:]) if has_params else ()
+                    ptuples[tuple(x.get_id() for x in ps)] = ps
+            if not has_params:
+                ptuples = {(): ()} if apps.get(fname) or rnd == 0 else {}
+            for ps in ptuples.values():
+                for tup in itertools.product(idx_range, repeat=k):
+                    if k > 1 and len(idx_range) ** k > 400 and any(t > 5 for t in tup):
+                        continue
+                    try:
+                        new.append((f"array fact {fname}{tup}", fact(*[z3.IntVal(x) for x in tup], *ps)))
+                    except Exception as e:
+                        notes.append(f"array fact {fname} not instantiable: {type(e).__name__}: {str(e)[:60]}")
+                        break
+        for name, fn in axioms.QFACTS.items():
+            for e in apps.get(name, {}).values():
+                try:
+                    new.extend((f"QFACTS {name}", f) for f in fn(e))
+                except Exception:
+                    pass
+        known = {f.get_id() for _, f in facts}
+        new = [(l, f) for l, f in new if f.get_id() not in known]
+        if not new:
+            break
+        facts.extend(new)
+        seeds = [f for _, f in new]
+    need_solver, nchecked = [], 0
     for label, f in facts:
-        ze.unbound = []
         try:
             ok = ze(f)
         except Unbound:
@@ -1177,44 +1245,49 @@ def rel_check(sn, eo, cmpr, pl):
             continue
         nchecked += 1
         if not ok:
-            cmpr.d("fact", f"{label} is FALSE on the real output: {str(z3.simplify(f))[:160]}")
-    if need_solver and not cmpr.diffs:
+            cmpr.d("fact", f"{label} is FALSE on the real output: {str(z3.simplify(f))[:200]}")
+    if (need_solver or equations) and not cmpr.diffs:
         s = z3.Solver()
-        s.set("timeout", 20000)
-        used = set()
-        for _, f in need_solver:
+        s.set("timeout", 30000)
+        forms = [f for _, f in need_solver]
+        for term, val in equations:
+            if isinstance(val, list):
+                notes.append("complex-valued derived term skipped")
+                continue
+            forms.append(term == _val_term(val, term.sort()))
+        # Sigma applications inside these formulas: unfold them (concrete ranges after the LEN facts) through their axioms
+        forms = forms + axioms.saturate(forms, rounds=2, opts={"array_facts": []})
+        for f in forms:
             s.add(f)
         inexact = False
-        # the bindings as equations
         decls = {}
-        for _, f in need_solver:
-            for nm, apps in axioms.collect_apps([f]).items():
-                for a in apps.values():
+        for f in forms:
+            for nm, ap in axioms.collect_apps([f]).items():
+                for a in ap.values():
                     decls[nm] = a.decl()
             for c in sigma.free_consts(f):
                 decls[c.decl().name()] = c.decl()
         for (nm, args), val in bind.items():
             d = decls.get(nm)
-            if d is None:
+            if d is None or d.arity() != len(args):
                 continue
-            if isinstance(val, float) or isinstance(val, complex):
+            if isinstance(val, complex) or (isinstance(val, float) and d.range() == z3.RealSort() and abs(val - float(sv.to_frac(val))) > 0):
                 inexact = True
                 continue
-            app = d(*[z3.IntVal(int(a)) if d.domain(i) == z3.IntSort() else z3.RealVal(str(Fraction(a))) for i, a in enumerate(args)]) if args else d()
-            rhs = z3.BoolVal(val) if isinstance(val, bool) else (z3.IntVal(int(val)) if app.sort() == z3.IntSort() else z3.RealVal(str(Fraction(val))))
-            s.add(app == rhs)
+            app = d(*[_val_term(a, d.domain(i)) for i, a in enumerate(args)]) if args else d()
+            s.add(app == _val_term(val, app.sort()))
         r = s.check()
+        hint = "; ".join(lbl for lbl, _ in need_solver[:3]) + (f"; {len(equations)} equations term = real value" if equations else "")
         if r == z3.unsat:
-            core_hint = "; ".join(lbl for lbl, _ in need_solver[:4])
             if inexact:
-                notes.append(f"{len(need_solver)} facts with auxiliary symbols are unsatisfiable with the exact part of the binding — float bindings dropped, verdict not used ({core_hint})")
+                notes.append(f"facts with auxiliary symbols unsatisfiable with the exact part of the binding only (float bindings dropped): not used as a verdict ({hint})")
             else:
-                cmpr.d("fact", f"the facts with auxiliary (unbound) symbols are UNSATISFIABLE together with the real output: {core_hint} ...")
+                cmpr.d("fact", f"the real output is NOT a model of the assumed facts: unsatisfiable together with the result equations ({hint} ...)")
         elif r == z3.sat:
-            nchecked += len(need_solver)
+            nchecked += len(need_solver) + len(equations)
         else:
-            notes.append(f"{len(need_solver)} facts with auxiliary symbols: solver {r}")
-    cmpr.notes = [f"{nchecked} assumed facts hold on the real output"] + notes
+            notes.append(f"{len(need_solver)} facts with auxiliary symbols / {len(equations)} equations: solver answered {r} ({s.reason_unknown()})")
+    cmpr.notes = [f"{nchecked} assumed facts / result equations hold on the real output"] + notes
 
 
 def qfact_formulas(q, bind, ze):
@@ -1232,8 +1305,8 @@ def qfact_formulas(q, bind, ze):
                 out.append((f"qfact argsort key(P({t})) <= key(P({u}))", zb(sv.cmp("<=", key(P(t)), key(P(u))))))
     elif kind == "argpartition":
         _, m, key, P, PINV, kth = q
-        m = int(m)
-        kth = int(norm(kth))
+        m = int(ze(sv.znum(m))) if not is_conc(m) else int(m)
+        kth = int(ze(sv.znum(kth))) if not is_conc(norm(kth)) else int(norm(kth))
         for t in range(0, kth + 1):
             out.append((f"qfact argpartition key(P({t})) <= key(P(kth))", zb(sv.cmp("<=", key(P(t)), key(P(kth))))))
         for u in range(kth, m):
@@ -1289,9 +1362,11 @@ def impl_of(lib, name):
 HOOK_KEYS = ["pyvc.arr.SYMBOLIC_MINMAX", "pyvc.arr.MASKED_ROW", "pyvc.text.open_file", "pyvc.text.file_method"]
 
 
-def table_signature(prop, funcs):
+def table_signature(prop, funcs, hooks=True):
     lib = vc.lib_for(prop)
     sig = [(f, _sig(impl_of(lib, f))) for f in funcs]
+    if not hooks:
+        return repr(sig)
     for k in HOOK_KEYS:
         sig.append((k, _sig(lib.hooks.get(k))))
     for k in ("value_binop", "value_eq", "str_binop", "value_attr", "value_getitem", "value_setitem", "call_method"):
@@ -1301,11 +1376,11 @@ def table_signature(prop, funcs):
     return repr(sig)
 
 
-def tables_for(funcs, props=None):
+def tables_for(funcs, props=None, hooks=True):
     """one representative property per distinct contract tuple"""
     seen, out = {}, []
     for p in (props if props is not None else PROPS):
-        s = table_signature(p, funcs)
+        s = table_signature(p, funcs, hooks)
         if s not in seen:
             seen[s] = p
             out.append(p)
@@ -1317,6 +1392,7 @@ def tables_for(funcs, props=None):
 
 
 CORPUS = {}
+SYM_ALL = [True]      # also run every snippet with symbolic-length array arguments (--no-sym switches it off)
 
 
 def run_snippet(job):
@@ -1330,22 +1406,27 @@ def run_snippet(job):
     except SyntaxError as e:
         res["runs"].append({"table": None, "case": 0, "status": "DISAGREE", "detail": [f"snippet syntax: {e}"]})
         return res
-    props = tables_for(sn["funcs"], sn.get("props"))
+    props = tables_for(sn["funcs"], sn.get("props"), hooks=sn.get("kind") != "rel")
     extern = None
     if sn.get("extern"):
         extern = sn["extern"]()
-    for p in props:
+    modes = sn.get("modes") or (["conc", "sym"] if SYM_ALL[0] else ["conc"])
+    for p, mode in itertools.product(props, modes):
         for ci, (case, real) in enumerate(zip(sn["cases"], real_cases)):
             try:
-                eo = run_engine(module, "f", case, p, extern)
+                eo = run_engine(module, "f", case, p, extern, symlen=(mode == "sym"))
                 status, detail = compare_case(sn, eo, real, case)
                 used = eo.lib_used
             except Exception as e:      # a fault of the harness or of the engine (not an EngineError): reported, never silent
                 status, detail, used = "DISAGREE", [f"engine fault {type(e).__name__}: {e}", traceback.format_exc()[-600:]], []
-            if status == "DISAGREE" and sn.get("limitation"):
+            tname = (p or "base") + ("/symlen" if mode == "sym" else "")
+            lim = sn.get("limitation") or (sn.get("limitation_tables") or {}).get(tname)
+            if status == "DISAGREE" and lim:
                 status = "limitation"
-                detail = [sn["limitation"]] + detail
-            res["runs"].append({"table": p or "base", "case": ci, "status": status, "detail": detail, "lib_used": used})
+                detail = [lim] + detail
+            if mode == "sym" and status == "not-modelled" and "modes" not in sn:
+                continue        # the symbolic-length re-run of a value snippet: engine limits there are not reported twice
+            res["runs"].append({"table": (p or "base") + ("/symlen" if mode == "sym" else ""), "case": ci, "status": status, "detail": detail, "lib_used": used})
     res["ms"] = round((time.time() - t0) * 1000)
     return res
 
@@ -1384,8 +1465,10 @@ def main():
     ap.add_argument("--list", action="store_true")
     ap.add_argument("--no-report", action="store_true")
     ap.add_argument("--seed", type=int, default=20260930)
+    ap.add_argument("--no-sym", action="store_true", help="skip the symbolic-length re-run of the value snippets")
     args = ap.parse_args()
     t0 = time.time()
+    SYM_ALL[0] = not args.no_sym
     import libcheck_corpus
     snips = libcheck_corpus.build(args.seed)
     ids = [s["id"] for s in snips]
@@ -1457,6 +1540,9 @@ def main():
         grouped.setdefault((sid, x["case"], " | ".join(str(d) for d in x["detail"][:3])[:700]), []).append(x["table"])
     for (sid, case, det), tabs in grouped.items():
         print(f"DISAGREE {sid} [case {case}; tables {','.join(tabs)}]: {det}")
+    if args.verbose:
+        slow = sorted(results, key=lambda r: -r.get("ms", 0))[:8]
+        print("[libcheck] slowest snippets: " + ", ".join(f"{r['id']} {r.get('ms', 0)} ms" for r in slow))
     if uncovered:
         print(f"[libcheck] library names of evidence/*.json without a snippet: {', '.join(uncovered)}")
     if never_agree and args.verbose:
